@@ -131,6 +131,61 @@ def rowDispatchOk (rows : List DatRow) (r : DatRow) : Bool :=
 
 theorem gen_rows_dispatch_sound : DatConsts.rows.all (rowDispatchOk DatConsts.rows) = true := by decide +kernel
 
+/-- `create_from_yaml_config` refuses, before anything is built: a UUID that is not 16 bytes long, a DCK of another type / size
+    than the RoT key, and (RSA / ECC classes) a protocol version other than the one of the RoT key -/
+theorem gen_create_refusals : DatConsts.createRefusals =
+    ["len(«uuid») != 16", "type(«dck_pub») is not type(«rot_pub») or «dck_pub».key_size != «rot_pub».key_size",
+     "«class» in (DebugCredentialCertificateRsa, DebugCredentialCertificateEcc) and «version» != ProtocolVersion.from_public_key(public_key=«rot_pub»)"] := by
+  rfl
+
+/-- **dc_create_consistent**: whatever gets past the creation checks has a 16-byte UUID, a DCK of the RoT key's type and size and,
+    for the RSA / ECC classes, the protocol version of the RoT key — so the field widths `export` derives from the objects and the
+    ones `parse` derives from the version coincide: RSA key field = modulus + 4 and signature = modulus bytes for that minor
+    version, ECC coordinate size = ⌈bits / 8⌉ (nothing is padded or truncated by `struct.pack`). -/
+theorem dc_create_consistent (cls : Cls) (major minor uuidLen : Nat) (rot dck : KeyKind)
+    (h : createCheck cls major minor uuidLen rot dck = .ok ()) :
+    uuidLen = 16 ∧ dck = rot ∧
+    (cls = .rsa ∨ cls = .ecc → versionOfKey rot = some (major, minor) ∧
+      (∀ bits, rot = .rsa bits → lookup minor DatConsts.rsaSigSize = some (bits / 8) ∧ lookup minor DatConsts.rsaKeySize = some (bits / 8 + 4)) ∧
+      (∀ bits, rot = .ecc bits → lookup minor DatConsts.eccCoordSize = some ((bits + 7) / 8))) := by
+  have hr := gen_create_refusals
+  simp only [createCheck, hr] at h
+  simp only [List.contains_cons, List.contains_nil, beq_self_eq_true, Bool.true_or, Bool.or_true, Bool.or_false, Bool.true_and] at h
+  by_cases hu : uuidLen = 16
+  · by_cases hd : dck = rot
+    · refine ⟨hu, hd, ?_⟩
+      intro hc
+      have hcb : (cls == Cls.rsa || cls == Cls.ecc) = true := by rcases hc with rfl | rfl <;> decide
+      simp [hu, hd, hcb] at h
+      cases hv : versionOfKey rot with
+      | none => simp [hv] at h
+      | some v =>
+        simp [hv] at h
+        have hv' : v = (major, minor) := by
+          by_cases e : v = (major, minor)
+          · exact e
+          · simp [e] at h
+        subst hv'
+        refine ⟨rfl, ?_, ?_⟩
+        · intro bits hb
+          subst hb
+          simp only [versionOfKey, Option.map_eq_some_iff] at hv
+          obtain ⟨m, hm, he⟩ := hv
+          injection he with _ he; subst he
+          have : ∀ p ∈ DatConsts.rsaMinorOfBits, lookup p.2 DatConsts.rsaSigSize = some (p.1 / 8) ∧
+              lookup p.2 DatConsts.rsaKeySize = some (p.1 / 8 + 4) := by decide
+          have hmem : (bits, m) ∈ DatConsts.rsaMinorOfBits := lookup_mem _ _ _ hm
+          exact this _ hmem
+        · intro bits hb
+          subst hb
+          simp only [versionOfKey, Option.map_eq_some_iff] at hv
+          obtain ⟨m, hm, he⟩ := hv
+          injection he with _ he; subst he
+          have : ∀ p ∈ DatConsts.eccMinorOfBits, lookup p.2 DatConsts.eccCoordSize = some ((p.1 + 7) / 8) := by decide
+          exact this _ (lookup_mem _ _ _ hm)
+    · simp [hu, hd] at h
+  · simp [hu] at h
+
 /-! ## 2. Credentials: round trip -/
 
 /-- **dc_roundtrip**: a well-formed credential of any class and any protocol version of the generated table exports,
